@@ -350,6 +350,11 @@ def view_ctx(ctx, policy):
                             protect.add(b.path)
             # accessors that hand out the old table are followed as projections (core.expand): they keep their bodies in every view
             protect = set(protect) | set(getattr(ctx.facts, "old_accessors", {}) or {})
+            try:
+                from rules_size import _pending_len_fns
+                protect |= set(_pending_len_fns(ctx))          # "old length or 0" helpers are read as that quantity where they are called
+            except Exception:
+                pass
             f2, done = inline.build_view(ctx.facts, policy, roles=ctx.roles, protect=protect)
         except Exception:
             import traceback
@@ -415,10 +420,30 @@ def run_rule(ctx, rid, cache=None, views=True):
             b2 = {_body_of_key(c2, v.key) for v in R2.violations}
             if None in b2:
                 continue          # the view reports something that is not tied to one function: no function-wise comparison
+            # a helper that the view inlined at every call site (and so has no body of its own any more) has handed its obligations to the
+            # functions it now lives in: what was reported about it is discharged when the view reports nothing about any of those
+            into = {}
+            for caller_, callee_ in getattr(c2, "inlined", []) or []:
+                into.setdefault(callee_, set()).add(caller_)
+
+            def hosts(fn, seen=None):
+                seen = seen if seen is not None else set()
+                out = set()
+                for h in into.get(fn, ()):
+                    if h in seen:
+                        continue
+                    seen.add(h)
+                    if h in c2.facts.bodies:
+                        out.add(h)
+                    else:
+                        out |= hosts(h, seen)
+                return out
             keep = []
             for v in remaining:
                 bp = _body_of_key(ctx, v.key)
                 if not v.key.startswith("ANCHOR:") and bp is not None and bp in c2.facts.bodies and bp not in b2:
+                    discharged.append((v.key, policy))
+                elif not v.key.startswith("ANCHOR:") and bp is not None and bp not in c2.facts.bodies and hosts(bp) and not (hosts(bp) & b2):
                     discharged.append((v.key, policy))
                 else:
                     keep.append(v)
